@@ -178,8 +178,58 @@ def undecodable_between(_case):
         os.chdir(cwd)
 
 
+REGISTRY_PROBE = r'''
+import json, os, sys, tempfile
+import tatsu
+from tatsu.semantics import ModelBuilderSemantics
+from tatsu.packetz.packet import Packet
+from tatsu.packetz.queue import PacketzQueue
+d = tempfile.mkdtemp(dir=os.environ.get("VERIF_SCRATCH") or None)
+path = os.path.join(d, "q.jsonl")
+w, r = PacketzQueue(path), PacketzQueue(path)
+out = {}
+try:
+    for x in ("one", "two"):
+        w.send(to="r", data=x)
+    out["before"] = [p.data for p in r.receive()]
+    # elsewhere in the same process: object models for grammars whose rule types are named like the queue's own classes
+    tatsu.compile("start::Packet = w:/[a-z]+/ ;", name="PK1").parse("ab", semantics=ModelBuilderSemantics())
+    tatsu.parse("start::Packet = w:/[a-z]+/ q:sub ;\nsub::PacketzQueue = /[0-9]+/ ;", "ab 12", asmodel=True)
+    for x in ("three", "four"):
+        w.send(to="r", data=x)
+    out["after"] = [p.data for p in r.receive()]
+    out["late_reader"] = [p.data for p in PacketzQueue(path).receive()]
+except Exception as e:
+    out["error"] = f"{type(e).__name__}: {e}"[:200]
+print(json.dumps(out))
+'''
+
+
+def registry_probe(ck):
+    """Sends and receives around model-building parses of grammars whose rule types are named like the queue's own classes (Packet,
+    PacketzQueue), in a fresh interpreter: every completed send is still received exactly once, in order."""
+    import json
+    import subprocess
+    import sys
+    p = subprocess.run([sys.executable, '-c', REGISTRY_PROBE], env=dict(os.environ), capture_output=True, text=True, timeout=300)
+    try:
+        out = json.loads(p.stdout.strip().splitlines()[-1])
+    except Exception:  # noqa: BLE001
+        raise tlc.MachineryError('C19 registry probe did not run: ' + (p.stdout + p.stderr)[-500:])
+    ck.count(evaluations=3, traces=3, nontrivial=3)
+    want = {'before': ['one', 'two'], 'after': ['three', 'four'], 'late_reader': ['one', 'two', 'three', 'four']}
+    if out != want:
+        ck.violation({'kind': 'history', 'inputs': {'history': 'send one, two ; receive ; model-building parses of start::Packet / sub::PacketzQueue ; send three, four ; receive ; '
+                                                               'a new reader receives'},
+                      'expected': want, 'observed': out,
+                      'why': 'packets are not delivered once and in order after object models were built for rule types named like the queue classes',
+                      'spec': 'PacketQueue!InOrderOnce (whatever else the process does)'}, key='registryprobe')
+    ck.notes['registry_probe'] = out
+
+
 def run(tier):
     ck = Check('C19', tier)
+    registry_probe(ck)
     d = tlc.scratch_dir('pktz')
     os.environ['VERIF_SCRATCH'] = d
     try:
